@@ -42,6 +42,9 @@ REWRITES = [
      "        let (_, _, z21) = interpolator.index_point(x_idx + 1, y_idx);\n        let (_, _, z12) = interpolator.index_point(x_idx, y_idx + 1);"),
     (CS, "if matches!(self.extrapolate, Extrapolate::No) && !in_range {", "if !in_range && matches!(self.extrapolate, Extrapolate::No) {"),
     (CS, "        let a_left = self.a.index_axis(AX0, idx);\n        let b_left = self.b.index_axis(AX0, idx);", "        let b_left = self.b.index_axis(AX0, idx);\n        let a_left = self.a.index_axis(AX0, idx);"),
+    (LIN, [("        x: Sx::Elem,\n    ) -> Result<(), InterpolateError> {\n        let this = interpolator;", "        xq: Sx::Elem,\n    ) -> Result<(), InterpolateError> {\n        let this = interpolator;"),
+           ("!this.is_in_range(x)", "!this.is_in_range(xq)"), ("\"x = {x:#?} is not in range\"", "\"x = {xq:#?} is not in range\""),
+           ("this.get_index_left_of(x)", "this.get_index_left_of(xq)"), ("(x2, y2), x);", "(x2, y2), xq);")], "the query parameter of Linear::interp_into renamed"),
     (M1, "        if data.ndim() < 1 {", "        if data.ndim() == 0 {"),
     (M1, "        if x.len() != data.shape()[0] {\n            return Err(BuilderError::ShapeError(", "        if data.shape()[0] != x.len() {\n            return Err(BuilderError::ShapeError("),
     (M2, "        if !matches!(x.monotonic_prop(), Rising { strict: true }) {\n            return Err(Monotonic(\n                \"The x-axis needs to be strictly monotonic rising\".into(),\n            ));\n        }\n        if !matches!(y.monotonic_prop(), Rising { strict: true }) {",
@@ -105,8 +108,14 @@ def run(edit):
     f, a, b = edit
     p = os.path.join(src, f)
     s = open(p).read()
-    assert a in s, (f, a[:60])
-    open(p, "w").write(s.replace(a, b, 1))
+    if isinstance(a, list):          # several replacements in one file (a renamed parameter): b is the label
+        for old_, new_ in a:
+            assert old_ in s, (f, old_[:60])
+            s = s.replace(old_, new_, 1)
+        open(p, "w").write(s)
+    else:
+        assert a in s, (f, a[:60])
+        open(p, "w").write(s.replace(a, b, 1))
     lean = os.path.join(WORK, "lean")
     r = subprocess.run([sys.executable, os.path.join(VERIF, "tools", "translate_control.py"), "--src", src, "--out",
                         os.path.join(lean, "NdInterp", "Gen", "Control.lean")], capture_output=True, text=True)
